@@ -814,6 +814,10 @@ def fam_getitem_array(rng):
     if remaining < 1:
         return None
     shape = [rng.randint(0, 4)] if rng.random() < 0.75 else [rng.randint(1, 2), rng.randint(0, 3)]
+    if rng.random() < 0.08:
+        # three-dimensional index arrays (without an empty dimension: an index array of shape (2, 3, 0) comes back as []
+        # instead of [[[], [], []], [[], [], []]] -- the wrapping of the result only restores one empty level; DESIGN 6.3)
+        shape = [rng.randint(1, 2), rng.randint(1, 3), rng.randint(1, 3)]
     flatlen = 1
     for d in shape:
         flatlen *= d
@@ -959,6 +963,8 @@ def fam_getitem_numpy(rng):
         if dim >= ndim:
             return None
         ashape = [rng.randint(1, 3)] if rng.random() < 0.7 else [rng.randint(1, 2), rng.randint(1, 2)]
+        if rng.random() < 0.1:
+            ashape = [rng.randint(1, 2), rng.randint(2, 3), rng.randint(1, 3)]      # three-dimensional index arrays
         at = 1
         for d in ashape:
             at *= d
